@@ -341,6 +341,7 @@ class Env:
         self.defs = {}      # local key 'l:name#id' -> init expr
         self.assigned = set()
         self.byref_only = set()      # locals marked assigned only because they are passed by non-const reference
+        self.mods = {}               # local -> kinds of in-place updates seen ('inc' / 'dec' / 'other')
         if fn_body is not None:
             self.scan(fn_body)
 
@@ -355,10 +356,16 @@ class Env:
                 p = path(n.get("lhs"))
                 if p and len(p) == 1:
                     self.assigned.add(p[0])
+                    cv = const_value(n.get("rhs"))
+                    kind = "other"
+                    if cv is not None and not isinstance(cv, str) and int(cv) >= 0 and n["op"] in ("+=", "-="):
+                        kind = "inc" if n["op"] == "+=" else "dec"
+                    self.mods.setdefault(p[0], []).append(kind)
             elif k == "Un" and n.get("op") in ("pre++", "pre--", "post++", "post--"):
                 p = path(n.get("e"))
                 if p and len(p) == 1:
                     self.assigned.add(p[0])
+                    self.mods.setdefault(p[0], []).append("inc" if "++" in n["op"] else "dec")
             elif k == "OpCall" and n.get("op", "").endswith("=") and n["op"] not in ("==", "!=", "<=", ">="):
                 a = n.get("args", [])
                 if a:
@@ -384,6 +391,14 @@ class Env:
         if p and len(p) == 1 and p[0].startswith("l:") and p[0] not in self.assigned:
             return self.defs.get(p[0])
         return None
+
+    def monotone(self, key):
+        """('inc'|'dec', initialiser) for a local whose only writes after its declaration are steps in one
+        direction (++ / += c, or -- / -= c with c >= 0) — its value never passes the initial one the other way."""
+        kinds = set(self.mods.get(key, []))
+        if key in self.byref_only or key not in self.defs or len(kinds) != 1 or "other" in kinds:
+            return None
+        return (kinds.pop(), self.defs[key])
 
     def resolve_ref_path(self, p):
         """Follow `const T& x = <path expr>` / `T x = <path expr>` chains for locals used as aliases
@@ -419,6 +434,11 @@ def int_key(e, env=None):
         return "size(%s)" % path_str(sp)
     p = path(e)
     if p is not None:
+        if len(p) == 1 and p[0].startswith("l:"):
+            # a constexpr / const local with a constant initialiser is that constant
+            cv = const_value(e)
+            if cv is not None and not isinstance(cv, str):
+                return str(int(cv))
         if env is not None:
             p = env.resolve_ref_path(p)
         return path_str(p)
@@ -665,6 +685,21 @@ def leaves_function(n):
 LOOP_CONDS = [False]
 
 
+def written_locals(n):
+    """Keys of the locals written in place (assignment, ++/--, compound assignment) somewhere inside n."""
+    out = set()
+    for x in walk(n):
+        k = x.get("k")
+        p = None
+        if k == "Bin" and x.get("op", "").endswith("=") and x["op"] not in ("==", "!=", "<=", ">="):
+            p = path(x.get("lhs"))
+        elif k == "Un" and x.get("op") in ("pre++", "pre--", "post++", "post--"):
+            p = path(x.get("e"))
+        if p and len(p) == 1 and p[0].startswith("l:"):
+            out.add(p[0])
+    return out
+
+
 def guarded_statements_lc(body, env=None, base=("T",)):
     """Like guarded_statements, but the condition of an enclosing while/for loop is added to the guard of
     the statements in its body (it holds at body entry; callers accept that a body may invalidate it)."""
@@ -739,7 +774,23 @@ def _gs(n, env, g, loops):
             yield from _gs(n["init"], env, g, loops)
         gb = g
         if LOOP_CONDS[0] and k in ("While", "For") and n.get("cond") is not None:
-            gb = f_and(g, cond(n["cond"], env))
+            lc = cond(n["cond"], env)
+            body = n.get("body")
+            if isinstance(body, dict) and body.get("k") == "Block":
+                # the loop condition holds at body entry; an atom is dropped after the first top-level body statement
+                # that writes a local it mentions
+                atoms = conjuncts(lc)
+                cur = g
+                for s_ in body.get("s", []):
+                    yield from _gs(s_, env, f_and(cur, *atoms), loops + (n,))
+                    cur = f_and(cur, fallthrough(s_, env))
+                    w = written_locals(s_)
+                    if w:
+                        atoms = [a for a in atoms if not any(x in repr(a) for x in w)]
+                if k == "For" and n.get("inc") is not None:
+                    yield (n["inc"], f_and(g, *atoms), loops + (n,))
+                return
+            gb = f_and(g, lc)
         yield from _gs(n.get("body"), env, gb, loops + (n,))
         if LOOP_CONDS[0] and k == "For" and n.get("inc") is not None:
             yield (n["inc"], gb, loops + (n,))
